@@ -1,4 +1,5 @@
 """C11 - runs are isolated: descriptors are never mutated, derived phases are copies, concurrent tests do not mix."""
+import copy
 import sys
 import threading as real_threading
 
@@ -21,10 +22,13 @@ RULE = ('(A) copy-on-derive: a pool of phase descriptors / collections grown by 
         'derived collection: the same on its direct child phases) and with EXECUTIONS of a Test built from a pool object.  Oracle: '
         'a structural fingerprint of every other pool object is unchanged after every op.  (B) a Test executed 1-3 times: '
         'fingerprints of the declared tree unchanged; every run starts from UNSET measurements, an empty state dict and an empty '
-        'diagnoses store (observed by the phase bodies at entry); records of consecutive runs are equal modulo volatile fields.  '
+        'diagnoses store (observed by the phase bodies at entry); records of consecutive runs are equal modulo volatile fields; the Test is '
+        'declared with nested mutable metadata which every run sees pristine, modifies in place through its record and which '
+        'neither changes the declared metadata nor an earlier run\'s record.  '
         '(C) two Tests that share phase objects executed concurrently (gated so that their phases interleave, and under the '
         'deterministic scheduler with drawn plans): each run\'s record equals its solo record and neither sees the other\'s '
-        'measurements, diagnoses, attachments, state dict.  Non-trivial = a derive followed by a mutation or an execute of the '
+        'measurements, diagnoses, attachments, state dict, nor (both declared with the same nested metadata object) the other\'s '
+        'record metadata.  Non-trivial = a derive followed by a mutation or an execute of the '
         'derived object; a second run; a concurrent pair; distinct by canonical case.')
 ASSUMPTIONS = ['Copy-on-derive is checked for depth-1 modifications: the same Measurement / PhasePlug declaration object reachable from several phases is how measures()/plug() work and is not "modifying the derived phase".',
                'Framework-level openhtf.* log lines are shared by design and excluded from the concurrent comparison.']
@@ -261,6 +265,10 @@ def volatile_free(rec_obs):
   }
 
 
+def nested_metadata():
+  return {'events': [], 'fixture': {'cycles': 0}}
+
+
 def check_runs(case):
   """case = {'prog': prog, 'runs': n}: the same Test object executed n times."""
   r = CaseResult()
@@ -274,10 +282,18 @@ def check_runs(case):
     unset = all(m.outcome.name == 'UNSET' for m in test_api.measurements._measurements.values())  # pylint: disable=protected-access
     entry_obs.append((len(st_), unset))
     test_api.state['seen'] = test_api.state.get('seen', 0) + 1
+    # nested (mutable) metadata the Test was declared with: seen pristine, then modified in place through the record
+    md = test_api.test_record.metadata.get('station')
+    entry_md.append(copy.deepcopy(md))
+    md['events'].append('visited')
+    md['fixture']['cycles'] += 1
 
   for p in progs.all_phases(prog):
     ctx.hooks[p['id']] = entry_hook
   test, tsarg = progs.build_test(prog, ctx, htf)
+  declared_md = nested_metadata()
+  test.descriptor.metadata['station'] = declared_md
+  entry_md, md_snaps = [], []
   got = []
   test.add_output_callbacks(got.append)
   tree_before = fp(test.descriptor.phase_sequence)
@@ -287,6 +303,7 @@ def check_runs(case):
   for run in range(case['runs']):
     ctx.inv.clear()
     del entry_obs[:]
+    del entry_md[:]
     n_before = len(got)
     try:
       test.execute(test_start=tsarg)
@@ -303,6 +320,16 @@ def check_runs(case):
       if not all(u for _, u in entry_obs):
         r.bad('C11/runs/measurement-not-unset-at-entry', 'run %d: a phase body started with a measurement that is not UNSET' % run)
     summaries.append(volatile_free(rmode.observe_record(got[-1])))
+    md_snaps.append(copy.deepcopy(got[-1].metadata.get('station')))
+    if entry_md and entry_md[0] != nested_metadata():
+      r.bad('C11/runs/metadata-not-pristine', 'run %d: the first phase saw metadata %r (declared %r)' % (run, entry_md[0], nested_metadata()))
+    if declared_md != nested_metadata():
+      r.bad('C11/runs/declared-metadata-mutated-by-execute', 'run %d: the metadata the Test was declared with is now %r' % (run, declared_md))
+    for k, snap in enumerate(md_snaps[:-1]):
+      if got[n_before - (len(md_snaps) - 1 - k)].metadata.get('station') != snap:
+        r.bad('C11/runs/earlier-record-changed-by-later-run', 'record of run %d: metadata %r became %r during run %d' % (
+            k, snap, got[n_before - (len(md_snaps) - 1 - k)].metadata.get('station'), run))
+        break
     if fp(test.descriptor.phase_sequence) != tree_before:
       r.bad('C11/runs/descriptor-mutated-by-execute', 'run %d changed the declared tree\n before=%r\n after=%r' % (
           run, tree_before, fp(test.descriptor.phase_sequence)))
@@ -349,6 +376,7 @@ def check_concurrent(case):
       if v != me:
         seen_foreign.append(('state', me, k, v))
     test_api.state['mark%d' % len(test_api.state)] = me
+    test_api.test_record.metadata['station']['events'].append(me)
     with cond:
       turn['n'] += 1
       cond.notify_all()
@@ -357,8 +385,10 @@ def check_concurrent(case):
   for p in progs.all_phases(prog):
     ctx.hooks[p['id']] = hook
   recs = [[], []]
+  station = nested_metadata()    # both slots of the station are declared with the same (nested) metadata object
   for k, t in enumerate(tests):
     t.descriptor.metadata['who'] = 'T%d' % k
+    t.descriptor.metadata['station'] = station
     t.add_output_callbacks(recs[k].append)
   errs = []
 
@@ -385,6 +415,9 @@ def check_concurrent(case):
     if not recs[k]:
       r.bad('C11/concurrent/no-record', 'test %d' % k)
       continue
+    foreign = [e for e in recs[k][0].metadata['station']['events'] if e != 'T%d' % k]
+    if foreign:
+      r.bad('C11/concurrent/record-metadata-shared', 'record of test %d holds metadata entries written by the other test: %r' % (k, recs[k][0].metadata['station']))
     s = volatile_free(rmode.observe_record(recs[k][0]))
     # behaviour scripts are indexed by a per-Ctx invocation counter shared by both tests: only compare programs
     # whose phases behave the same on every invocation
